@@ -53,12 +53,12 @@ PROPS = {
         explanation='Verbatim bodies: FileIterator::next pairs the content with the header file entry the archive entry NAMES (index returned by Reader::file_entry_index), never by position; Reader::new bounds the name buffer, bounds-checks the stripped file index and sizes the entry from the cpio header resp. the header file entry; pad(len) is (4 - len mod 4) mod 4 NUL bytes; Reader::read never hands out more than file_size - bytes_read, accounts exactly what it handed out and cannot overflow; Reader::finish consumes the rest of the entry plus its padding; Writer::write accepts data only while it fits the announced size and emits the header first; header + full body + finish yields hdr ++ body ++ NUL padding with 4-byte alignment.',
     ),
     'C08': dict(
-        level='proof', verus=['c10_sign', 'c08_sigbuild', 'c08_blocks', 'c14_writers'],
+        level='proof', verus=['c10_sign', 'c08_sigbuild', 'c08_blocks', 'c14_writers', 'c06_add_data', 'c06_files'],
         trusted_base=[A_TOOLS, A_EXTRACT, 'A-HASH: sha2 / hex compute SHA-256 / lower-case hex (uninterpreted)',
                       'A-LEAF-LINK: Header::write contract proved in unit c14_writers',
                       'SignatureHeaderBuilder::build is proved on its verbatim body (unit c08_sigbuild) against the from_entries contract of unit c09_from_entries; A-SIZE: the size precondition of from_entries (< 2 GiB of data) is assumed for signature headers; A-PGP: packet parser / base64 stand-ins'],
-        assumptions=['prepare_data as a whole is out of reach (750 lines, compressor FFI, paths, clock); the payload digest / algorithm / alternate digest are covered by a BLOCK contract on the verbatim statement range that computes and records them (b1_payload_digests: proved for every entry state of its free variables); NOT covered: per-file digests (add_data), and that the hashing writer really wraps the compressor fed with the archive (the surrounding statements of prepare_data)'],
-        explanation='Sha256Writer::write (verbatim, any inner sink): the hasher absorbs exactly the bytes the inner writer accepted (Ok(n): buf[..n]; Err: nothing) and into_digest is sha256 of them; PackageBuilder::build, Package::sign_with_timestamp, Package::clear_signatures: the SHA-256 stored in the signature header is hex(sha256(ser(header))) of the header that ends up in the package.',
+        assumptions=['prepare_data as a whole is out of reach (750 lines, compressor FFI, paths, clock); the payload digest / algorithm / alternate digest are covered by a BLOCK contract on the verbatim statement range that computes and records them (b1_payload_digests: proved for every entry state of its free variables); per-file digests: add_data stores hex(sha256(content)) with the content and its length in the entry it hands to the file map (unit c06_add_data), one iteration of the file loop pushes exactly that entry digest (block b10) and the array is emitted under RPMTAG_FILEDIGESTS with algorithm SHA-256 (block b11, unit c06_files). NOT covered: that the hashing writer really wraps the compressor fed with the archive (the surrounding statements of prepare_data)'],
+        explanation='Sha256Writer::write (verbatim, any inner sink): the hasher absorbs exactly the bytes the inner writer accepted (Ok(n): buf[..n]; Err: nothing) and into_digest is sha256 of them; PackageBuilder::build, Package::sign_with_timestamp, Package::clear_signatures: the SHA-256 stored in the signature header is hex(sha256(ser(header))) of the header that ends up in the package; add_data: the digest kept for a file is hex(sha256(content)).',
     ),
     'C10': dict(
         level='proof', verus=['c10_sign', 'c08_sigbuild', 'c02_verify_sig', 'c14_writers', 'c10_keyids'],
